@@ -190,8 +190,11 @@ pub fn parse_opreturn(r: &RunResult) -> Result<Vec<(u64, String, String)>, Strin
                 return Err(format!("bad line {}", l));
             }
             out.push((h, rest[..64].to_string(), rest[74..].to_string()));
+        } else if let Some(last) = out.last_mut() {
+            // a payload containing a line break continues on the next stdout line
+            last.2.push('\n');
+            last.2.push_str(&l);
         } else if !l.is_empty() {
-            // continuation of a payload containing a newline is excluded from the grammars
             return Err(format!("unexpected stdout line {:?}", l));
         }
     }
